@@ -46,6 +46,13 @@ pub struct Opt {
     /// .lzma: LZMAWriter::new(use_header, use_end_marker) given explicitly (default: new_use_header's choice)
     pub header: Option<bool>,
     pub marker: Option<bool>,
+    /// raw LZMA2 (ours): length of a preset dictionary given to the writer and to the reader (C16 / C01)
+    pub pdict: Option<usize>,
+}
+
+/// The preset dictionary of a raw LZMA2 part (deterministic text that the data classes resemble).
+pub fn preset_dict_bytes(o: &Opt) -> Option<Vec<u8>> {
+    o.pdict.map(|n| gen::data("text", n, 0x9D1C))
 }
 
 #[derive(Deserialize, Clone, Debug)]
@@ -635,7 +642,8 @@ fn ours_stream(kind: &str, p: &Part, data: &[u8]) -> Result<Vec<u8>, String> {
             w.finish().map_err(io)
         }
         _ => {
-            let o = LZMA2Options { lzma_options: lzma_opts(&p.opt), chunk_size: p.opt.limit.and_then(NonZeroU64::new) };
+            let mut o = LZMA2Options { lzma_options: lzma_opts(&p.opt), chunk_size: p.opt.limit.and_then(NonZeroU64::new) };
+            o.lzma_options.preset_dict = preset_dict_bytes(&p.opt);
             let mut w = LZMA2Writer::new(Vec::new(), o);
             for (a, b) in cuts {
                 w.write_all(&data[a..b]).map_err(io)?;
@@ -734,7 +742,8 @@ fn run_read(s: &Scn) -> Value {
             Err(e) => (vec![], Some(errs(&e))),
         },
         _ => {
-            let mut rd = LZMA2Reader::new(&mut src, dict, None);
+            let pd = s.parts.iter().find(|p| p.k == "lzma2").and_then(|p| preset_dict_bytes(&p.opt));
+            let mut rd = LZMA2Reader::new(&mut src, dict, pd.as_deref());
             drain(&mut rd, &s.reads)
         }
     };
